@@ -456,7 +456,7 @@ def unwrap(n):
 class Cfg:
     """per-unit lowering configuration"""
     def __init__(self, types=None, rename=None, free=None, defaults=None, drop=None, throws=None,
-                 plain=None, consts=None, exc_tree=None, dyncast=None, range_for=None, ghost_fields=None, ctor_tag=None, uf_ops=None):
+                 plain=None, consts=None, exc_tree=None, dyncast=None, range_for=None, ghost_fields=None, ctor_tag=None, uf_ops=None, struct_fields=None):
         def nk(k):
             if isinstance(k, tuple) and len(k) >= 2 and k[0] == 'ctor':
                 return (k[0], norm_class(k[1])) + tuple(k[2:])
@@ -482,6 +482,7 @@ class Cfg:
         self.range_for = dict(range_for or {})  # class key -> (size fn, at fn)
         self.ghost_fields = dict(ghost_fields or {})
         self.ctor_tag = dict(ctor_tag or {})   # class key -> statement run after the base initialisers (dynamic type tag)
+        self.struct_fields = {norm_class(k): list(v) for k, v in (struct_fields or {}).items()}   # class -> the only fields kept in its struct
         self.uf_ops = dict(uf_ops or {})       # floating-point operators abstracted by uninterpreted functions: opcode -> C function
 
 class FnLower:
@@ -1697,6 +1698,7 @@ def struct_fields(index, cfg, qname):
 def struct_text(index, cfg, qname, cname=None, extra=''):
     """C struct for class qname: base-class fields first (flattened), then own fields; ghost fields per cfg"""
     fields = []
+    only = cfg.struct_fields.get(norm_class(qname))
     def rec(q):
         q = norm_class(q)
         r = index.records.get(q)
@@ -1707,6 +1709,8 @@ def struct_text(index, cfg, qname, cname=None, extra=''):
             raise ExtractionBreak('record %s not in AST dump' % q)
         for b in r.get('bases', []) or []:
             bq = norm_class(b['type'].get('desugaredQualType') or b['type']['qualType'])
+            if only is not None:
+                continue     # restricted struct: only the listed fields of the class itself
             if bq in index.records:
                 rec(bq)
             elif bq in cfg.ghost_fields:
@@ -1715,6 +1719,8 @@ def struct_text(index, cfg, qname, cname=None, extra=''):
             fields.append(cfg.ghost_fields[q])
         for c in r.get('inner', []):
             if c.get('kind') == 'FieldDecl':
+                if only is not None and c['name'] not in only:
+                    continue
                 fields.append('%s %s;' % (cfg.types.c(c['type']), c['name']))
     rec(qname)
     seen = [];
